@@ -30,6 +30,7 @@ RULE = (
     "with tower lengths covering every residue mod 8). termination: random bytes, truncations / bit flips / count-field overwrites of captured "
     "PDUs, END-less verification trailers into every decoder. distinct = digest of bytes; non-trivial (round trip) = not byte-identical to a "
     "captured PDU of the suite; (termination) = input on which the decoder ran more than 40 line events"
+    " Also: scaling probes with inputs as large as one fragment allows (line events and CPU time)."
 )
 ASSUMPTIONS = [
     "ref.rpc / ref.epm transcribe C706 ch.12 / MS-RPCE (calibrated on every captured PDU in tests/_rpc and tests/test_epm.py)",
